@@ -11,7 +11,7 @@ func init() {
 	register(&PropDef{
 		ID:    "C20",
 		Level: "other",
-		Explanation: "That the kernel delivers a group signal to every member is trusted; decided is that the code asks for it on every path (non-windows configurations): PGID — every exec.Cmd that is started in the module's task-execution code has SysProcAttr{Setpgid: true}; TARGET — the pid argument of every syscall.Kill in the module is the negation of that command's Process.Pid (the whole process group); ESCALATION — the exec handler spawns, whenever the context can end, a watcher that after <-ctx.Done() sends SIGKILL at once when the kill timeout ≤ 0, and otherwise SIGINT plus an unconditional SIGKILL after Sleep(kill timeout), with the timeout wired from the task runner's killTimeout; WAIT — after a successful Start every path calls Wait before returning; ONLY THIS EXECUTOR — commands are executed only through the pgid executor (its exec handler is the one handed to the interpreter), the two other spawn sites (stage/task conditions) are unreachable because their guards read fields that are never set in the module, and every Execute reachable from a task run gets the runner's cancellable context; CANCEL WAITS — every task run is counted in the runner's WaitGroup and Cancel cancels the context and waits for all runs.",
+		Explanation: "That the kernel delivers a group signal to every member is trusted; decided is that the code asks for it on every path (non-windows configurations): PGID — every exec.Cmd that is started in the module's task-execution code has SysProcAttr{Setpgid: true}; TARGET — the pid argument of every syscall.Kill in the module is the negation of that command's Process.Pid (the whole process group); ESCALATION — the exec handler spawns, whenever the context can end, a watcher that after <-ctx.Done() sends SIGKILL at once when the kill timeout ≤ 0, and otherwise SIGINT plus an unconditional SIGKILL after Sleep(kill timeout), with the timeout wired from the task runner's killTimeout; WAIT — after a successful Start every path calls Wait before returning, and the stdout/stderr writers the runner hands to the compiled task are never bare *os.File values (io.MultiWriter results), so os/exec copies output through a pipe and Wait also covers every descendant that still holds it; ONLY THIS EXECUTOR — commands are executed only through the pgid executor (its exec handler is the one handed to the interpreter), the two other spawn sites (stage/task conditions) are unreachable because their guards read fields that are never set in the module, and every Execute reachable from a task run gets the runner's cancellable context; CANCEL WAITS — every task run is counted in the runner's WaitGroup and Cancel cancels the context and waits for all runs.",
 		Trusted:     []string{"kill(-pgid, sig) reaches every member of the process group", "setpgid keeps descendants in the group unless they leave it", "mvdan/sh hands every external command to the configured ExecHandler"},
 		NotDecided:  []string{"that the kernel delivers to every member", "latency of delivery", "processes that leave their process group (setsid)"},
 		SkipConfig: func(bc BuildConfig) string {
@@ -22,6 +22,53 @@ func init() {
 		},
 		Check: checkC20,
 	})
+}
+
+// nonFileWriter: the io.Writer value v is, on every path, something other than a bare *os.File.
+func (w *World) nonFileWriter(v ssa.Value, depth int) (bool, string) {
+	if depth > 6 {
+		return false, "too deep"
+	}
+	v = w.Resolve(v)
+	switch x := v.(type) {
+	case *ssa.Call:
+		n := calleeName(&x.Call)
+		if n == "io.MultiWriter" {
+			return true, "io.MultiWriter result"
+		}
+		if f := x.Call.StaticCallee(); f != nil && f.Blocks != nil && w.InModule(f) {
+			all, why := true, "every result of "+FuncName(f)+" is a non-file writer"
+			nret := 0
+			allInstrs(f, func(in ssa.Instruction) {
+				if rt, ok := in.(*ssa.Return); ok && len(rt.Results) > 0 {
+					nret++
+					if ok2, w2 := w.nonFileWriter(rt.Results[0], depth+1); !ok2 {
+						all, why = false, FuncName(f)+" can return "+w.AP(rt.Results[0])+": "+w2
+					}
+				}
+			})
+			return all && nret > 0, why
+		}
+		return false, "result of " + n + " has an unknown dynamic type"
+	case *ssa.MakeInterface:
+		t := x.X.Type().String()
+		if t == "*os.File" {
+			return false, "an *os.File"
+		}
+		return true, "a " + t
+	case *ssa.UnOp:
+		if g, ok := x.X.(*ssa.Global); ok && globalName(g) == "io.Discard" {
+			return true, "io.Discard"
+		}
+	case *ssa.Phi:
+		for _, e := range x.Edges {
+			if ok, why := w.nonFileWriter(e, depth+1); !ok {
+				return false, why
+			}
+		}
+		return true, "all alternatives are non-file writers"
+	}
+	return false, "dynamic type of " + w.AP(v) + " is not known to differ from *os.File"
 }
 
 const (
@@ -292,7 +339,38 @@ func checkC20(w *World, r *Report) {
 	}
 	// cancel waits (shared with C04)
 	checkStopOrder(w, r)
+	// ---- WAIT COVERS DESCENDANTS: exec.Cmd.Wait returns when the direct child has exited AND
+	// the copy goroutines of its output pipes have finished, i.e. when no descendant holds the
+	// pipe any more. os/exec creates such a pipe only when Stdout/Stderr is not an *os.File.
+	// The writers the runner hands to the compiled task must therefore never be bare files
+	// (the production output store returns *os.File): they are io.MultiWriter results.
+	if run := w.FuncByName("taskctl", "(*TaskRunner).Run"); run == nil {
+		r.Undecided("wait.output-through-pipe", "taskctl.TaskRunner.Run", "-", "not found")
+	} else {
+		n := 0
+		for _, ci := range findCalls(run, func(nm string, _ *ssa.CallCommon) bool { return strings.HasSuffix(nm, "TaskCompiler).CompileTask") }) {
+			cf := ci.Common().StaticCallee()
+			if cf == nil {
+				continue
+			}
+			for _, pn := range []string{"stdout", "stderr"} {
+				pi := paramIndex(cf, pn)
+				if pi < 0 || pi >= len(ci.Common().Args) {
+					continue
+				}
+				n++
+				a := ci.Common().Args[pi]
+				ok, why := w.nonFileWriter(a, 0)
+				r.Check(ok, "wait.output-through-pipe", FuncName(run)+": "+pn+" writer of the compiled task", w.InstrPos(ci), "never a bare *os.File ("+why+"): os/exec copies the output through a pipe and Wait returns only after every descendant holding it has gone",
+					"the "+pn+" writer handed to the task ("+w.AP(a)+") can be the output store's *os.File itself ("+why+"): os/exec then passes the descriptor to the child and Wait returns as soon as the direct child exits — the job is reported finished while descendants that ignore the interrupt are still alive (and survive a forced shutdown)")
+			}
+		}
+		if n == 0 {
+			r.Viol("wait.output-through-pipe", FuncName(run)+": CompileTask call", w.Pos(run.Pos()), "no CompileTask call with stdout/stderr parameters found")
+		}
+	}
 	r.Floor("pgid.", 1)
+	r.Floor("wait.", 3)
 	r.Floor("escalation.", 4)
 	r.Floor("target.", 3)
 	r.Floor("only-executor.", 6)
